@@ -131,35 +131,46 @@ func rebindRenamedAnchors(w *World) {
 		return float64(inter) / float64(len(set))
 	}
 	taken := map[*FuncInfo]bool{}
-	for _, name := range missing {
-		old := snap[name]
-		var best *FuncInfo
-		bestScore, ties := 0.0, 0
-		for _, fi := range fresh[pkgOfQualified(name)] {
-			if taken[fi] {
+	// two passes: same signature first; then, for anchors still missing, a changed signature is accepted when the
+	// body is clearly the same one (what it calls and the constants it mentions agree almost entirely, and there are
+	// enough of them for that to mean something)
+	for pass := 0; pass < 2; pass++ {
+		for _, name := range missing {
+			if w.FuncBy[name] != nil {
 				continue
 			}
-			fp := fingerprint(fi)
-			if fp.Sig != old.Sig {
+			old := snap[name]
+			var best *FuncInfo
+			bestScore, ties := 0.0, 0
+			for _, fi := range fresh[pkgOfQualified(name)] {
+				if taken[fi] {
+					continue
+				}
+				fp := fingerprint(fi)
+				if pass == 0 && fp.Sig != old.Sig {
+					continue
+				}
+				if pass == 1 && len(old.Callees)+len(old.Consts) < 4 {
+					continue
+				}
+				score := (jaccard(fp.Callees, old.Callees) + jaccard(fp.Consts, old.Consts)) / 2
+				switch {
+				case score > bestScore:
+					best, bestScore, ties = fi, score, 0
+				case score == bestScore:
+					ties++
+				}
+			}
+			if best == nil || bestScore < 0.6 || ties > 0 || (pass == 1 && bestScore < 0.85) {
 				continue
 			}
-			score := (jaccard(fp.Callees, old.Callees) + jaccard(fp.Consts, old.Consts)) / 2
-			switch {
-			case score > bestScore:
-				best, bestScore, ties = fi, score, 0
-			case score == bestScore:
-				ties++
-			}
+			taken[best] = true
+			w.FuncBy[name] = best
+			bare := name[strings.LastIndex(name, ".")+1:]
+			renamedFuncs[best.Obj] = bare
+			full := best.Obj.FullName()
+			renamedFull[best.Obj] = full[:strings.LastIndex(full, ".")+1] + bare
+			best.Name = name
 		}
-		if best == nil || bestScore < 0.6 || ties > 0 {
-			continue
-		}
-		taken[best] = true
-		w.FuncBy[name] = best
-		bare := name[strings.LastIndex(name, ".")+1:]
-		renamedFuncs[best.Obj] = bare
-		full := best.Obj.FullName()
-		renamedFull[best.Obj] = full[:strings.LastIndex(full, ".")+1] + bare
-		best.Name = name
 	}
 }
